@@ -213,6 +213,7 @@ type FnCtx struct {
 	curSt *State
 	usedNames map[string]int
 	curClause *Expr
+	baseAlloc map[int]string
 }
 
 type deferRec struct {
@@ -300,12 +301,17 @@ func (fc *FnCtx) heapSym(st *State, key, sort string) string {
 	}
 	t := fc.smt.declare("H_"+key, sort)
 	fc.heap0[bk] = t
+	fc.refBound(t, key, sort, fc.baseAlloc[base])
 	return t
 }
 
 // havocAll forgets everything about the heap except stable keys.
 func (fc *FnCtx) havocAll(st *State) {
 	fc.nbase++
+	na := fc.smt.declare("alloc", "Int")
+	fc.assume(st, app(">=", na, st.alloc))
+	st.alloc = na
+	fc.baseAlloc[fc.nbase] = na
 	nh := map[string]string{}
 	for k, v := range st.heap {
 		if fc.isStableKey(k) {
@@ -379,6 +385,42 @@ func (fc *FnCtx) load(st *State, p PtrV, t types.Type) Val {
 		}
 	}
 	v := unflatten(t, &ts)
+	return fc.wellTyped(t, v)
+}
+
+// wellTyped attaches the state-independent representation invariants of slices and strings
+// to values read from the heap (Go's memory safety guarantees them for every stored value).
+func (fc *FnCtx) wellTyped(t types.Type, v Val) Val {
+	switch u := t.Underlying().(type) {
+	case *types.Slice:
+		s := v.(SliceV)
+		s.Ref = fc.smt.defineAlways("ld_ref", "Int", s.Ref)
+		s.Off = fc.smt.defineAlways("ld_off", bvsort(64), s.Off)
+		s.Len = fc.smt.defineAlways("ld_len", bvsort(64), s.Len)
+		s.Cap = fc.smt.defineAlways("ld_cap", bvsort(64), s.Cap)
+		fc.smt.addExtra(s.Len, and(
+			app("bvsle", bvlit(0, 64), s.Off), app("bvsle", bvlit(0, 64), s.Len), app("bvsle", s.Len, s.Cap),
+			app("bvsle", s.Cap, bvlit(1<<46, 64)), app("bvsle", s.Off, bvlit(1<<46, 64)), app("<=", "0", s.Ref),
+			implies(eq(s.Ref, "0"), and(eq(s.Cap, bvlit(0, 64)), eq(s.Off, bvlit(0, 64))))))
+		return s
+	case *types.Basic:
+		if isString(t) {
+			s := v.(SliceV)
+			s.Off = fc.smt.defineAlways("ld_off", bvsort(64), s.Off)
+			s.Len = fc.smt.defineAlways("ld_len", bvsort(64), s.Len)
+			s.Cap = s.Len
+			fc.smt.addExtra(s.Len, and(app("bvsle", bvlit(0, 64), s.Off), app("bvsle", bvlit(0, 64), s.Len),
+				app("bvsle", s.Len, bvlit(1<<46, 64)), app("bvsle", s.Off, bvlit(1<<46, 64))))
+			return s
+		}
+	case *types.Struct:
+		sv := v.(StructV)
+		out := StructV{F: make([]Val, len(sv.F))}
+		for i := range sv.F {
+			out.F[i] = fc.wellTyped(u.Field(i).Type(), sv.F[i])
+		}
+		return out
+	}
 	return v
 }
 
@@ -444,6 +486,7 @@ func (fc *FnCtx) havocKey(st *State, key, sort string) {
 	}
 	fc.keySort[key] = sort
 	st.heap[key] = fc.smt.declare("H_"+key, sort)
+	fc.refBound(st.heap[key], key, sort, st.alloc)
 }
 
 func (fc *FnCtx) sortedKeys() []string {
